@@ -397,14 +397,24 @@ func (r *Runner) compareObs(in *inst, st *Step, si int) {
 	}
 	got := map[int][]int{}
 	for _, row := range cluster.Rows(d, "T") {
-		k, _ := row["k"].(json.Number).Int64()
+		kn, okk := row["k"].(json.Number)
+		if !okk {
+			r.violate("C19", "values", si, "after %s a document reads k = %v (%T), not an integer: %v", st.Op, row["k"], row["k"], row)
+			return
+		}
+		k, _ := kn.Int64()
 		var vals []int
 		for _, f := range st.Obs.Fields {
 			x := row[fmt.Sprintf("f%d", f)]
 			if x == nil {
 				vals = append(vals, -1)
 			} else {
-				i, _ := x.(json.Number).Int64()
+				xn, okx := x.(json.Number)
+				if !okx {
+					r.violate("C19", "values", si, "after %s document k=%d reads f%d = %v (%T), not an integer", st.Op, k, f, x, x)
+					return
+				}
+				i, _ := xn.Int64()
 				vals = append(vals, int(i))
 			}
 		}
